@@ -3,6 +3,7 @@ package checks
 import (
 	"encoding/json"
 	"fmt"
+	"sort"
 	"testing"
 
 	textwire "github.com/textwire/textwire/v2"
@@ -285,6 +286,43 @@ func c20Repeated(c *harness.Check, cs repCase) string {
 			textwire.RegisterStrFunc("zzArgs", func(s string, a ...any) string { calls++; return s + ":" + kinds(a) }),
 			textwire.RegisterStrFunc("zzCount", func(s string, a ...any) string { calls++; return fmt.Sprintf("%s#%d", s, calls) }),
 			textwire.RegisterArrFunc("zzTag", func(x []any, a ...any) []any { calls++; return append(append([]any{}, x...), calls) }),
+			// functions that scribble over what they are given: the Go values belong to the call
+			textwire.RegisterStrFunc("zzSortArg", func(s string, a ...any) string {
+				calls++
+				if len(a) == 1 {
+					if xs, ok := a[0].([]any); ok {
+						sort.Slice(xs, func(i, j int) bool { return fmt.Sprint(xs[i]) < fmt.Sprint(xs[j]) })
+						out := fmt.Sprint(xs...)
+						for i := range xs {
+							xs[i] = "gone"
+						}
+						return s + ":" + out
+					}
+					if m, ok := a[0].(map[string]any); ok {
+						out := fmt.Sprint(len(m))
+						for k := range m {
+							delete(m, k)
+						}
+						m["added"] = true
+						return s + ":" + out
+					}
+				}
+				return s + ":?"
+			}),
+			textwire.RegisterArrFunc("zzWipe", func(x []any, a ...any) []any {
+				calls++
+				for i := range x {
+					if inner, ok := x[i].([]any); ok {
+						for j := range inner {
+							inner[j] = 0
+						}
+					}
+					if inner, ok := x[i].(map[string]any); ok {
+						inner["k"] = "wiped"
+					}
+				}
+				return []any{len(x)}
+			}),
 		}
 		for _, e := range errs {
 			if e != nil {
@@ -293,6 +331,7 @@ func c20Repeated(c *harness.Check, cs repCase) string {
 			}
 		}
 		var src, wantOut string
+		var data map[string]any
 		wantCalls := 0
 		switch cs.Scenario {
 		case "look-alike-arguments":
@@ -307,6 +346,13 @@ func c20Repeated(c *harness.Check, cs repCase) string {
 		case "same-call-side-by-side":
 			src = `{{ "x".zzCount(1) }}|{{ "x".zzCount(1) }}|{{ [0].zzTag() }}|{{ [0].zzTag() }}`
 			wantOut, wantCalls = "x#1|x#2|0, 3|0, 4", 4
+		case "functions-that-change-their-arguments":
+			// the same variables are passed again (and printed) after a function has changed the Go
+			// values it received: the template's values are what they were
+			data = map[string]any{"names": []string{"c", "a", "b"}, "cfg": map[string]any{"x": 1, "y": 2}, "nested": []any{[]any{1, 2}, map[string]any{"k": "v"}}}
+			src = `{{ "1".zzSortArg(names) }}|{{ "2".zzSortArg(names) }}|{{ names.join(",") }}|{{ "3".zzSortArg(cfg) }}|{{ "4".zzSortArg(cfg) }}|{{ cfg.x }}|` +
+				`{{ loc = ["z", "y"]; "5".zzSortArg(loc) }}|{{ "6".zzSortArg(loc) }}|{{ loc.join(",") }}|{{ nested.zzWipe() }}|{{ nested.zzWipe() }}|{{ nested[0].join("+") }}{{ nested[1].k }}`
+			wantOut, wantCalls = "1:abc|2:abc|c,a,b|3:2|4:2|1|5:yz|6:yz|z,y|2|2|1+2v", 8
 		case "same-call-in-for":
 			src = `@for(i = 0; i < 3; i++){{ 7.zzKind() }},@end`
 			wantOut, wantCalls = "1,2,3,", 3
@@ -314,7 +360,7 @@ func c20Repeated(c *harness.Check, cs repCase) string {
 			failure = "bad case"
 			return
 		}
-		out, err := textwire.EvaluateString(src, nil)
+		out, err := textwire.EvaluateString(src, data)
 		if err != nil {
 			failure = "unexpected error: " + err.Error()
 			return
@@ -341,9 +387,9 @@ func init() {
 
 func TestC20_RepeatedCalls(t *testing.T) {
 	c := harness.New(t, "C20", "repeated-calls",
-		"several calls of one registered function in one render: with arguments of different types or nesting that print alike (1, \"1\", 1.0; [\"a b\"], [\"a\", \"b\"]), the same call in every pass of @each and @for, and side by side; the functions count their invocations. Every call must reach the function with its own arguments (the kinds received are shown) and show its own result. Exhaustive over five scenarios. Non-trivial: all. Distinct by construction.")
+		"several calls of one registered function in one render: with arguments of different types or nesting that print alike (1, \"1\", 1.0; [\"a b\"], [\"a\", \"b\"]), the same call in every pass of @each and @for, and side by side; the functions count their invocations; functions that sort, overwrite or delete from the arrays and objects they are given (as argument, or nested in an array receiver), called again with the same variables. Every call must reach the function with its own arguments (the kinds received are shown) and show its own result. Exhaustive over six scenarios. Non-trivial: all. Distinct by construction.")
 	defer c.Finish()
-	for _, sc := range []string{"look-alike-arguments", "nesting-that-prints-alike", "same-call-in-a-loop", "same-call-side-by-side", "same-call-in-for"} {
+	for _, sc := range []string{"look-alike-arguments", "nesting-that-prints-alike", "same-call-in-a-loop", "same-call-side-by-side", "same-call-in-for", "functions-that-change-their-arguments"} {
 		cs := repCase{Scenario: sc}
 		c.CaseEnum(true, "scenario:"+sc)
 		c.Sample(cs)
